@@ -22,6 +22,9 @@ RULE = (
     "traverse it by definition; each offset returns precisely that record (12 columns); keys are (id,SN,SO,SO+LN); nodes "
     "without records have no key (the extra 'ref_contig' entry of the pickle is not part of the statement and not judged). Non-trivial = >=2 records, a node with >=2 records and a node "
     "with none, and for BGZF >=2 data blocks with a record starting beyond the first. Distinct by SHA-1 of the case."
+    " Later additions: an index path that already holds another index, BGZF blocks ending exactly at record "
+    "ends, gzip header bytes other than htslib's, an incompressible BGZF file (compressed size > 64 KiB; > 1 "
+    "MiB thorough), read names with quotes and non-ASCII letters."
 )
 ASSUMPTIONS = ["duplicate offsets inside one node's list are not judged here (set semantics; exactly-once output is C04's claim)"]
 
